@@ -1,48 +1,39 @@
 #!/usr/bin/env python3
-"""Apply every behaviour-preserving refactoring under /verif/refactors/<id>/ to /repo (working tree only), run all 20 quick checks,
-and undo it.  These are *negative* examples: every check must stay silent (exit 0).  Writes refactors/<id>/result.json.
-Usage: tools/run_refactors.py [id ...]"""
+"""Apply every behaviour-preserving refactoring under /verif/refactors/<id>/ to a scratch export of /repo's HEAD, run all 20 quick
+checks against it (--repo), and remove the scratch copy.  These are *negative* examples: every check must stay silent (exit 0).
+Writes refactors/<id>/result.json.  Usage: tools/run_refactors.py [-jN] [id ...]"""
 import json
 import os
-import re
-import subprocess
 import sys
+from concurrent.futures import ThreadPoolExecutor
 
-VERIF = os.path.dirname(os.path.dirname(os.path.abspath(__file__)))
-REPO = "/repo"
+sys.path.insert(0, os.path.dirname(os.path.abspath(__file__)))
+from patchrun import VERIF, with_patch
+
 PROPS = ["C%02d" % i for i in range(1, 21)]
 
 
-def sh(cmd, cwd=None):
-    return subprocess.run(cmd, cwd=cwd, shell=True, stdout=subprocess.PIPE, stderr=subprocess.STDOUT, text=True)
+def one(rid):
+    d = os.path.join(VERIF, "refactors", rid)
+    patch = os.path.join(d, "patch.diff")
+    if not os.path.isfile(patch):
+        return None
+    ok, out = with_patch(patch, PROPS)
+    res = {"id": rid, "applied": ok, "alarms": {p: v[1] or ["exit %d" % v[0]] for p, v in out.items() if v[0] != 0}}
+    json.dump(res, open(os.path.join(d, "result.json"), "w"), indent=1)
+    print("%-6s applied=%s alarms=%s" % (rid, ok, res["alarms"] or "none"), flush=True)
+    return res
 
 
 def main():
-    ids = sys.argv[1:] or sorted(os.listdir(os.path.join(VERIF, "refactors")))
-    if sh("git status --porcelain --untracked-files=no", REPO).stdout.strip():
-        print("refusing: /repo has uncommitted changes")
-        return 2
-    alarms = 0
-    for rid in ids:
-        d = os.path.join(VERIF, "refactors", rid)
-        patch = os.path.join(d, "patch.diff")
-        if not os.path.isfile(patch):
-            continue
-        ok = sh("git apply --check %s" % patch, REPO).returncode == 0 and sh("git apply %s" % patch, REPO).returncode == 0
-        res = {"id": rid, "applied": ok, "alarms": {}}
-        if ok:
-            for p in PROPS:
-                c = sh("./check %s --tier quick" % p, VERIF)
-                if c.returncode != 0:
-                    res["alarms"][p] = [m.group(1)[:160] for m in re.finditer(r"^  ((?:R|BUILD|ANCHOR|INTERNAL|SELFTEST)[\w.\-]*:.*?): ", c.stdout, flags=re.M)]
-            sh("git checkout -- .", REPO)
-            if sh("git status --porcelain --untracked-files=no", REPO).stdout.strip():
-                print("!! could not undo", rid)
-                return 3
-        json.dump(res, open(os.path.join(d, "result.json"), "w"), indent=1)
-        alarms += len(res["alarms"])
-        print("%-6s applied=%s alarms=%s" % (rid, ok, res["alarms"] or "none"))
-    print("false alarms on %d (refactoring, property) pairs" % alarms)
+    args = sys.argv[1:]
+    jobs = 3
+    if args and args[0].startswith("-j"):
+        jobs = int(args.pop(0)[2:])
+    ids = args or sorted(os.listdir(os.path.join(VERIF, "refactors")))
+    with ThreadPoolExecutor(jobs) as ex:
+        rs = [r for r in ex.map(one, ids) if r]
+    print("false alarms on %d (refactoring, property) pairs; not applied: %s" % (sum(len(r["alarms"]) for r in rs), [r["id"] for r in rs if not r["applied"]]))
     return 0
 
 
